@@ -7,7 +7,8 @@ A case is a history over one project:
                                     path = None | False | "<format string>"
 Jobs are named by their state point so that every sub-history is still a meaningful case
 (an op that names an absent job is skipped).  After the first oracle failure the history stops,
-so a failing case has exactly one failing `view` op.
+so a failing case has exactly one failing `view` op.  No known-finding carve-out: every oracle failure is a
+VIOLATION.
 """
 import json
 import os
@@ -33,8 +34,8 @@ MODELLED = ["os.walk / os.unlink / os.rmdir / os.makedirs / os.symlink / os.path
             "posixpath.join / normpath / relpath (re-implemented for relative paths)",
             "str.format for the fragment literal text, {{ }}, {name}, {name:spec}; str() of scalars and tuples",
             "hash/== slotting of _TypedSetDefaultDict (bool/int share a slot, float separate; -2.0 vs -2 excluded)",
-            "the model contains the proposed repairs F-16b, F-16c, F-17a, F-17b, F-17c (proposed/*.md); on the "
-            "unpatched tree these input classes are judged by the direct oracle alone"]
+            "six defects found by this check (F-16b, F-16c, F-17a, F-17b, F-17c, F-17d) are fixed in the repository; "
+            "the model is the code as it stands and nothing is carved out: a return of any of them is a VIOLATION"]
 ASSUMPTIONS = ["POSIX (the Windows symlink branch is not modelled)",
                "the view directory contains only what create_linked_view put there",
                "nested keys/values contain no path separator, no key is '', '.', '..' or contains a dot",
@@ -63,16 +64,16 @@ LEVEL_TEXT = ("Proved in Lean (no bound on the number of jobs, depth of paths or
               "by a concrete link set. The compiled model is compared with the real create_linked_view on every view op "
               "of every generated history, starting from the REAL prior tree (outcome + full set of directories and "
               "(link path, resolved target)).")
-LEVEL_NOTE = ("The model is the code WITH the repairs proposed in proposed/F-16b.diff, F-16c.diff, F-17a..d.diff "
-              "(each confirmed by the direct oracle on the unchanged tree and carved out narrowly by known_class while "
-              "unfixed; with all diffs applied the check is green with no carve-out). Partial: the theorems need link "
+LEVEL_NOTE = ("The model mirrors the code as it stands (after the fix commits for F-16b, F-16c, F-17a, F-17b, F-17c, F-17d, "
+              "all found by this check's direct oracle; no input class is carved out). Partial: the theorems need link "
               "path components that are ordinary names and take distinct link paths ending in 'job' as a hypothesis "
               "(the checks guarantee distinct path STRINGS and no leaf/node clash; that join+split keeps them distinct "
               "is not proved). Not proved: that the path function (index, str(), normpath, format fragment) equals the "
               "Python one - that is the correspondence; os.* semantics are modelled (finite map, errno behaviour of "
               "unlink/rmdir/makedirs/symlink), link TEXT (relative target) is not compared, only what it resolves to. "
-              "Not covered: Windows, nested values with separators, '..' through format strings beyond the escape "
-              "guard, foreign files in the view directory, -2.0 vs -2 slot clash.")
+              "Not covered: Windows, nested values with separators, foreign files in the view directory, -2.0 vs -2 "
+              "slot clash. Real calls run with os.mkdir/makedirs/symlink guarded so that a write outside the scratch "
+              "project is reported ([escape]) instead of performed.")
 
 UNIVERSES = {
     # name: (keys, value pool, flags)
